@@ -132,6 +132,8 @@ def run(tier):
     ck.cov["graph_form_inputs"] = len(graph_in)
     jobs2 = sweep.expand_jobs(inputs + extra_in, ["prep"] if quick else ["prep", "readout", "compress"], ck.rng, formats=False)
     jobs2 += sweep.expand_jobs(graph_in, ["prep"], ck.rng, formats=False)
+    # nearly optimal, already tailored input circuits containing a swap (a swap counts three): what compress delivers for them is measured as well
+    jobs2 += sweep.expand_jobs(sweep.table_plus_swap_programs(L, ck.rng, 8 if quick else 80), ["compress"], ck.rng, formats=False)
     # one Stabilizer / circuit object passed to every connectivity in turn (what it was asked before must not matter)
     traces, verdicts = sweep.run_jobs(ck, L, jobs2, "delivered", sweeps=sweep.conn_sweep_jobs([dict(i, only_conn=None) for i in inputs + extra_in], ["prep", "readout"], ck.rng))
     known_keys = {key for (key, *_rest) in nonopt}
